@@ -33,7 +33,7 @@ def sortStrings (l : List String) : List String := l.mergeSort strLe
 
 /-- `Uuid::to_string()`: the canonical text is lower-case.  `Header.uuid` holds the text of the UUID;
     when it was produced from a parsed `Uuid` it is canonical already and this is the identity. -/
-def uuidToString (u : String) : String := u.map Char.toLower
+def uuidToString (u : String) : String := String.ofList (u.toList.map Char.toLower)
 
 /-- `Itertools::duplicates`: the elements that occur more than once, each reported once, at its second
     occurrence (`seen` = the elements already consumed) -/
